@@ -468,6 +468,11 @@ class Ops:
         if isinstance(op, ast.IsNot):
             return x != y
         if isinstance(op, (ast.Lt, ast.LtE, ast.Gt, ast.GtE)):
+            rx, ry = it.refine(x), it.refine(y)
+            if (ctor(rx) is None or ctor(ry) is None) and not it.feasible(z3.Not(z3.And(vals.is_numlike(x), vals.is_numlike(y)))):
+                # both operands are numbers of a kind not yet fixed: order them without forking on the kinds
+                lt, gt, eq = ext_lt(x, y), ext_lt(y, x), ext_eq(x, y)
+                return {ast.Lt: lt, ast.LtE: z3.Or(lt, eq), ast.Gt: gt, ast.GtE: z3.Or(gt, eq)}[type(op)]
             a, b = it.split_kind(a), it.split_kind(b)
             x, y = a.t, b.t
             fo = fast_order(x, y)
